@@ -634,6 +634,24 @@ func (r *Runner) exec(cmd string, t *toks) string {
 			return r.ok("nil")
 		}
 		return r.ok(r.comps[i].readVal(p))
+	case "hasu", "getu", "relu":
+		// unchecked accessors (no liveness check)
+		e := r.ent(t, re)
+		i := t.nat()
+		id := r.idOf(i)
+		t.end()
+		r.check(re)
+		switch cmd {
+		case "hasu":
+			return r.ok(b01(w.HasUnchecked(e, id)))
+		case "relu":
+			return r.ok(showEnt(w.Relations().GetUnchecked(e, id)))
+		}
+		p := w.GetUnchecked(e, id)
+		if p == nil {
+			return r.ok("nil")
+		}
+		return r.ok(r.comps[i].readVal(p))
 	case "mask", "ids":
 		e := r.ent(t, re)
 		t.end()
